@@ -65,7 +65,8 @@ TIME_STYLES = {"HMS": ("%H:%M:%S", 10 ** 9), "T": ("%T", 10 ** 9), "compact": ("
                "dot_f": ("%H:%M:%S%.f", 1), "dot_3f": ("%H:%M:%S%.3f", 10 ** 6), "dot_6f": ("%H:%M:%S%.6f", 10 ** 3),
                "dot_9f": ("%H:%M:%S%.9f", 1), "f": ("%H:%M:%S.%f", 1), "3f": ("%H:%M:%S.%3f", 10 ** 6),
                "6f": ("%H:%M:%S,%6f", 10 ** 3), "9f": ("%T.%9f", 1)}
-ZONE_STYLES = {"none": "", "z": " %z", "z_adjacent": "%z", "colon_z": "%:z", "sp_colon_z": " %:z"}
+ZONE_STYLES = {"none": "", "z": " %z", "z_adjacent": "%z", "colon_z": "%:z", "sp_colon_z": " %:z",
+               "hash_z": " %#z", "hash_z_adjacent": "%#z"}      # %#z: chrono's parse-only permissive offset
 JOINERS = [" ", "T", " at ", "_", ""]
 
 BOOL_TRUE = ["true", "t", "yes", "y"]
@@ -112,7 +113,7 @@ def render(fmt, dt, nanos, offset, secs):
             out.append(c)
             i += 1
             continue
-        for d in ("%.3f", "%.6f", "%.9f", "%.f", "%3f", "%6f", "%9f", "%:z"):
+        for d in ("%.3f", "%.6f", "%.9f", "%.f", "%3f", "%6f", "%9f", "%:z", "%#z"):
             if fmt.startswith(d, i):
                 break
         else:
@@ -172,6 +173,8 @@ def render(fmt, dt, nanos, offset, secs):
             out.append(off_text(offset, False))
         elif d == "%:z":
             out.append(off_text(offset, True))
+        elif d == "%#z":
+            out.append(off_text(offset, bool(nanos & 1)))      # accepts +hhmm and +hh:mm alike
         elif d == "%+":
             out.append("%04d-%02d-%02dT%02d:%02d:%02d%s%s" % (dt.year, dt.month, dt.day, dt.hour, dt.minute, dt.second,
                                                              dot_f(nanos), off_text(offset, True)))
